@@ -380,12 +380,19 @@ func (m *monitor) block(height int64, txs [][]byte, res *sim.BlockRes) *viol {
 			ext := extID(o.Raw)
 			if prev, ok := m.ext[ext]; ok {
 				if t0 := m.trk[prev]; t0 != nil {
+					if t0.Where == "failed" {
+						m.feats["resubmitted-after-failure:"+o.Kind]++
+					}
 					if t0.Where != "failed" {
 						variant := "same-bytes"
 						if prev != name {
 							variant = "different-trailing-bytes"
 						}
-						note(&viol{"two-trackers", o.Kind + ":" + variant, fmt.Sprintf("height %d tx#%d: %s accepted (code 0) for external transaction %s although tracker %s (%s, %s, decided=%q) already exists for it",
+						class := o.Kind + ":" + variant
+						if variant == "different-trailing-bytes" && (typ == tRedeem || typ == tRedeemERC) {
+							class = "redeem:" + variant // one root cause for both redeem kinds
+						}
+						note(&viol{"two-trackers", class, fmt.Sprintf("height %d tx#%d: %s accepted (code 0) for external transaction %s although tracker %s (%s, %s, decided=%q) already exists for it",
 							height, i, o.Kind, ext, prev.Hex(), typeName[t0.Type], t0.Where, t0.Decided)})
 					}
 					delete(m.trk, prev)
